@@ -3,9 +3,9 @@ package main
 import (
 	"fmt"
 	"go/constant"
+	"go/types"
 	"os"
 	"path/filepath"
-	"go/types"
 	"sort"
 	"strings"
 	"sync"
@@ -29,13 +29,13 @@ type PrimRec struct {
 
 // Finding is a counterexample found by the solver (not yet confirmed natively).
 type Finding struct {
-	Harness string        `json:"harness"`
-	Kind    string        `json:"kind"` // "assert" or "panic"
-	Label   string        `json:"label"`
-	Detail  string        `json:"detail,omitempty"`
-	Script  []ScriptEntry `json:"script"`
-	Notes   []string      `json:"notes,omitempty"`
-	MapNondet bool        `json:"map_nondet"` // path took a Go-spec map-iteration choice
+	Harness   string        `json:"harness"`
+	Kind      string        `json:"kind"` // "assert" or "panic"
+	Label     string        `json:"label"`
+	Detail    string        `json:"detail,omitempty"`
+	Script    []ScriptEntry `json:"script"`
+	Notes     []string      `json:"notes,omitempty"`
+	MapNondet bool          `json:"map_nondet"` // path took a Go-spec map-iteration choice
 }
 
 // ScriptEntry is one primitive value of a replay script.
@@ -48,57 +48,57 @@ type ScriptEntry struct {
 
 // Shared is the per-harness state shared by all workers.
 type Shared struct {
-	prog    *ssa.Program
-	pkg     *ssa.Package // package holding the harness
-	harness *ssa.Function
-	hname   string
-	params  map[string]int
-	unwind  int
-	replace map[string]*ssa.Function // library function -> Go-written model in the harness package
-	modPath string                   // module path prefix that is "in scope"
-	marks   *markers
-	maxPaths int
-	deadline time.Time
-	tier    string
-	secondSolver string
-	seed int
+	prog          *ssa.Program
+	pkg           *ssa.Package // package holding the harness
+	harness       *ssa.Function
+	hname         string
+	params        map[string]int
+	unwind        int
+	replace       map[string]*ssa.Function // library function -> Go-written model in the harness package
+	modPath       string                   // module path prefix that is "in scope"
+	marks         *markers
+	maxPaths      int
+	deadline      time.Time
+	tier          string
+	secondSolver  string
+	seed          int
 	fixedMapOrder bool
 
-	mu        sync.Mutex
-	pending   [][]bool
-	busy      int
-	cond      *sync.Cond
-	stats     Stats
-	findings  []Finding
-	findKeys  map[string]int
-	samples   []Sample
-	funcsSeen map[string]bool
-	assertSites map[string]int
-	coverSites  map[string]int
+	mu           sync.Mutex
+	pending      [][]bool
+	busy         int
+	cond         *sync.Cond
+	stats        Stats
+	findings     []Finding
+	findKeys     map[string]int
+	samples      []Sample
+	funcsSeen    map[string]bool
+	assertSites  map[string]int
+	coverSites   map[string]int
 	inconclusive map[string]int
-	stop      bool
-	pathCount int
-	constCache map[string][]string
-	byteConsts map[string][]byte
+	stop         bool
+	pathCount    int
+	constCache   map[string][]string
+	byteConsts   map[string][]byte
 }
 
 // Sample is a concrete witness of a completed path (for evidence and for
 // native path-agreement validation).
 type Sample struct {
-	Harness string        `json:"harness"`
-	Script  []ScriptEntry `json:"script"`
-	Notes   []string      `json:"notes,omitempty"`
-	MapNondet bool        `json:"map_nondet"`
+	Harness   string        `json:"harness"`
+	Script    []ScriptEntry `json:"script"`
+	Notes     []string      `json:"notes,omitempty"`
+	MapNondet bool          `json:"map_nondet"`
 }
 
 type Stats struct {
 	Paths, Completed, AssumeKilled, Infeasible, Unwind, Unsupported, Outside, Unknown int
-	Panics, AssertsChecked, AssertsFailed                                         int
-	Forks, DomainDecided                                                          int
-	FeasQueries, AssertQueries, Sat, Unsat, UnknownQ                              int
-	Second, SecondDisagree                                                        int
-	SolverSec, Solver2Sec                                                         float64
-	BudgetExhausted                                                               bool
+	Panics, AssertsChecked, AssertsFailed                                             int
+	Forks, DomainDecided                                                              int
+	FeasQueries, AssertQueries, Sat, Unsat, UnknownQ                                  int
+	Second, SecondDisagree                                                            int
+	SolverSec, Solver2Sec                                                             float64
+	BudgetExhausted                                                                   bool
 }
 
 func (a *Stats) add(b Stats) {
@@ -145,30 +145,31 @@ type Engine struct {
 	sol  *Solver
 	sol2 *Solver
 
-	prefix []bool
-	taken  []bool
-	nvar   int
-	depth  int
-	pc     []*Term
-	decls  []decl
-	prims  []PrimRec
-	notes  []string
+	prefix    []bool
+	taken     []bool
+	nvar      int
+	depth     int
+	pc        []*Term
+	decls     []decl
+	prims     []PrimRec
+	notes     []string
 	mapNondet bool
 
-	globals map[*ssa.Global]*Value
-	doms    map[string]*bitset
-	facts   map[string]bool
-	parseResult *Value
+	globals        map[*ssa.Global]*Value
+	doms           map[string]*bitset
+	facts          map[string]bool
+	parseResult    *Value
 	depthIsFinding bool
-	domHits int
-	bufs    map[*Value][]bufSeg
-	sbufs   map[*Value]StrVal
-	inInit  bool
-	expectPanic string
+	domHits        int
+	bufs           map[*Value][]bufSeg
+	sbufs          map[*Value]StrVal
+	syncMaps       map[*Value][]syncEnt
+	inInit         bool
+	expectPanic    string
 
-	st Stats
+	st         Stats
 	localFuncs map[string]bool
-	atomSeq int
+	atomSeq    int
 }
 
 type Frame struct {
@@ -430,6 +431,7 @@ func (e *Engine) resetPath(prefix []bool) {
 	e.depthIsFinding = false
 	e.bufs = map[*Value][]bufSeg{}
 	e.sbufs = map[*Value]StrVal{}
+	e.syncMaps = map[*Value][]syncEnt{}
 	e.expectPanic = ""
 	e.atomSeq = 0
 }
